@@ -83,6 +83,7 @@ class WorldAdapter:
         env = self.env = Env()
         env.log = []
         env.fault = None
+        env.killer = None
         env.w = desper.World()
         self.counter += 1
         self.mode = self.modes[self.counter % len(self.modes)]
@@ -92,6 +93,11 @@ class WorldAdapter:
             def m(self, entity, world):
                 if controllers and cb == 'on_add':
                     desper.Controller.on_add(self, entity, world)
+                if env.killer and env.killer[0] == self.name and cb == 'on_remove':
+                    victim = env.killer[1]
+                    env.killer = None
+                    if world.get_components(victim):
+                        world.delete_entity(victim, immediate=True)
                 env.log.append((cb, self.name, modelid(entity)) if world is env.w else (cb, self.name, modelid(entity), 'WRONGWORLD'))
                 if env.fault == (cb, self.name):
                     env.fault = None
@@ -101,7 +107,8 @@ class WorldAdapter:
         def probe(self, tok):
             env.log.append(('probe', self.name, tok))
 
-        base_ns = {'on_add': lifecycle('on_add'), 'on_remove': lifecycle('on_remove'), 'probe': probe}
+        base_ns = {'on_add': lifecycle('on_add'), 'on_remove': lifecycle('on_remove'), 'probe': probe,
+                   '__bool__': lambda self: not getattr(self, 'falsy', False)}
         env.types = {}
         for t in topo(K['Types'], K['Bases']):
             root = (desper.Controller,) if controllers else (object,)
@@ -111,11 +118,13 @@ class WorldAdapter:
         for c in sorted(K['Comps']):
             o = env.types[K['TypeOf'][c]]()
             o.name = c
+            o.falsy = c in K.get('_Falsy', ())      # a component whose truth value is False (empty container-like)
             if K['Decl'][c] and not controllers:
                 o.__events__ = {ev: ev for ev in sorted(K['Decl'][c])}
             env.comps[c] = o
         # a holder class with one reference descriptor per component / processor type (mode 'ref')
-        env.holder_cls = None
+        env.holders = {}
+        env.ctrls = {}
 
         def p_on_add(self):
             env.log.append(('on_add', self.name, -1))
@@ -150,6 +159,7 @@ class WorldAdapter:
         w = env.w
         env.log = []
         env.fault = None
+        env.killer = None
         kind = ['ok', 0, '-']
 
         def call():
@@ -182,6 +192,13 @@ class WorldAdapter:
             elif name == 'ProcessRemoveFault':
                 env.fault = ('on_remove', args[1])
                 w.process(args[0])
+            elif name == 'ProcessKiller':
+                env.killer = (args[1], pyid(args[2]))
+                w.process(args[0])
+            elif name == 'SetEnabledFault':
+                it = pre['queue'][args[0] - 1]
+                env.fault = (it[0], it[1])
+                w.dispatch_enabled = True
             elif name == 'Clear':
                 w.clear()
             elif name == 'SetEnabled':
@@ -200,13 +217,21 @@ class WorldAdapter:
 
     # -- C19: the same calls through the shorthands ------------------------------------------------
     def _ctrl(self, pe):
-        return self.desper.controller(pe, self.env.w)
+        c = self.env.ctrls.get(pe)
+        if c is None:
+            c = self.env.ctrls[pe] = self.desper.controller(pe, self.env.w)
+        return c
 
     def _holder(self, pe, attr_type, kind):
-        d = self.desper
-        ref = d.ComponentReference(attr_type) if kind == 'c' else d.ProcessorReference(attr_type)
-        H = type('Holder', (), {'ref': ref, 'world': self.env.w, 'entity': pe})
-        return H()
+        """One persistent owner object per (entity, type): a reference descriptor may keep per-owner state."""
+        key = (pe, attr_type, kind)
+        h = self.env.holders.get(key)
+        if h is None:
+            d = self.desper
+            ref = d.ComponentReference(attr_type) if kind == 'c' else d.ProcessorReference(attr_type)
+            H = type('Holder', (), {'ref': ref, 'world': self.env.w, 'entity': pe})
+            h = self.env.holders[key] = H()
+        return h
 
     def _add_component(self, pe, obj):
         m, d = self.mode, self.desper
@@ -429,9 +454,9 @@ class WorldAdapter:
         every removal of the deferred deletion precedes them."""
         reg = post['reg']
         mlog = [tuple(x) for x in post['log']]
-        if name == 'SetEnabled' and args[0]:
+        if (name == 'SetEnabled' and args[0]) or name == 'SetEnabledFault':
             groups = []
-            for it in pre['queue'][:len(mlog)] if False else pre['queue']:
+            for it in (pre['queue'][:args[0]] if name == 'SetEnabledFault' else pre['queue']):
                 ents = self._expand((it[0], it[1], it[2]) if it[0] != 'probe' else ('probe*', '-', it[2]), reg)
                 if it[3] or not groups:
                     groups.append(list(ents))
